@@ -141,10 +141,12 @@ func main() {
 				r.ok("E1", "GOARCH=386 re-analysis", "-", fmt.Sprintf("%d obligations re-checked on the 386 build, %d violated", n386, bad386))
 			}
 		}
-		var selftest []selfTestResult
+		var selftest, benign []selfTestResult
 		if *tier == "thorough" && os.Getenv("LUNARLINT_NO_SELFTEST") == "" {
 			selftest = runSelfTest(id, c.Repo, *findings, *spec)
 			printSelfTest(id, selftest)
+			benign = runBenignTest(id, c.Repo, *findings, *spec)
+			printBenignTest(id, benign)
 		}
 		analysed := map[string]interface{}{
 			"repo":              c.Repo,
@@ -155,6 +157,9 @@ func main() {
 		}
 		if selftest != nil {
 			analysed["selftest_seeded_variants"] = selftest
+		}
+		if benign != nil {
+			analysed["selftest_benign_refactorings"] = benign
 		}
 		if code := r.finish(c, *tier, pstart, ev, *findings, analysed); code > exit {
 			exit = code
